@@ -1,5 +1,5 @@
 SPECIFICATION GenSpec
 CONSTANTS FixUnprotect = TRUE  FixFragCount = TRUE  GeckoPadCheck = TRUE  TcpAddrCheck = TRUE
-  UDPLenCheck = TRUE  PunchMin = 33  FeedIdxCheck = TRUE  Mode = "shapes"  MaxSteps = 4
+  UDPLenCheck = TRUE  PunchMin = 33  FeedIdxCheck = TRUE  Mode = "shapes"  Only = ""  MaxSteps = 4
 INVARIANT PrintShape
 CHECK_DEADLOCK FALSE
